@@ -991,9 +991,67 @@ def decode_query(o):
 
 # --------------------------------------------------------------------------
 
+def _mqs(ml):
+    from cssutils.stylesheets import MediaQuery
+    return [getattr(it, 'value', it) for it in ml if isinstance(getattr(it, 'value', it), MediaQuery)]
+
+
+def member_query_family(ctx, n):
+    """a MediaQuery that is a member of a list (stand-alone list, @media, @import; parsed or appended) given a new
+    mediaText: a single well-formed query is accepted and shows in the list; a query followed by anything else (a second
+    query, a stray token) is rejected and list and query stay as they were.  Search only."""
+    import cssutils
+    import xml.dom
+    from harness import impl
+    rng = ctx.rng
+    GOOD = ['print', 'screen and (color)', 'not tv', 'only screen and (min-width: 10px) and (max-width: 20em)', '(color)']
+    TRAIL = [', projection', ') and (width: 1px)', ' tv', ' and', ', ', ' ;', ' {', ' (', ' "x"', ' and (color) print', ',print and']
+    for _ in range(n):
+        impl.reset()
+        how = rng.choice(['list', 'media', 'import', 'appended'])
+        if how == 'list':
+            ml = cssutils.stylesheets.MediaList('tv, print and (color)')
+        elif how == 'media':
+            ml = cssutils.parseString('@media tv, print and (color) {a{left:0}}').cssRules[0].media
+        elif how == 'import':
+            ml = cssutils.parseString('@import "x.css" tv, print and (color);').cssRules[0].media
+        else:
+            ml = cssutils.stylesheets.MediaList()
+            ml.appendMedium('tv')
+            ml.appendMedium('print and (color)')
+        members = _mqs(ml)
+        mq = rng.choice(members)
+        before = (ml.mediaText, [m.mediaText for m in members])
+        good = rng.choice(GOOD)
+        bad = good + rng.choice(TRAIL)
+        case = {'family': 'member-query', 'list': how, 'assign': bad}
+        ctx.case(('member', how, bad, members.index(mq)))
+        try:
+            mq.mediaText = bad
+            accepted = True
+        except xml.dom.DOMException:
+            accepted = False
+        except Exception as e:  # noqa
+            ctx.violation('observe-raises', case, '%s: %s' % (type(e).__name__, e), KNOWN_PRED)
+            continue
+        after = (ml.mediaText, [m.mediaText for m in _mqs(ml)])
+        if accepted or after != before:
+            ctx.violation('member-query-trailing', case, 'mediaText = %r on a member query %s; list before %r, after %r' % (
+                bad, 'accepted' if accepted else 'rejected', before, after), KNOWN_PRED)
+            continue
+        try:
+            mq.mediaText = good
+            want = cssutils.stylesheets.MediaQuery(good).mediaText
+            if mq.mediaText != want or want not in ml.mediaText:
+                ctx.violation('member-query-set', dict(case, assign=good), 'query reads %r, list %r' % (mq.mediaText, ml.mediaText), KNOWN_PRED)
+        except xml.dom.DOMException as e:
+            ctx.violation('member-query-set', dict(case, assign=good), 'a well-formed query was rejected: %s' % e, KNOWN_PRED)
+
+
 def run(ctx):
     quick = ctx.tier == 'quick'
     types = media_types()
+    member_query_family(ctx, 120 if quick else 3000)
     nh, nops, nq = (1400, 9, 1500) if quick else (40000, 16, 30000)
     ctx.cov['rule'] = ('operation histories (mediaText= / appendMedium, append, MediaQuery object / deleteMedium / list[i]=) over the live '
                        'MEDIA_TYPES in any case, queries with only/not, 1-3 and-joined features, dimension/number/ident/colour/string '
